@@ -181,7 +181,7 @@ def simulate_cfg(args):
 
 def collect(R, res, sres):
     closed = True
-    conform.settle_audit(res)
+    conform.settle_audit(res + [{"audit": None, "fails": x["fails"]} for x in sres])
     for x in res:
         R.cov["traces_validated_against_impl"] += x["edges"]
         R.cov["evaluations"] += x["edges"]
